@@ -51,7 +51,7 @@ def reads_host_header(facts, g):
 
 
 def C20_1_3(ctx, facts):
-    f = facts.fn("server::conn::tls::sni::handle")
+    f = facts.unit(facts.fn("server::conn::tls::sni::handle"))
     ctx.touched(f)
     cmps = [c for c in f.calls() if c.matches(r"str.*::eq_ignore_ascii_case$")]
     inval = [b for (b, i, s) in f.aggregates("server::conn::tls::sni::ValidateSNIError", "InvalidSNI")]
@@ -144,7 +144,7 @@ def h2_edges(f):
 
 def _selection_fn(facts):
     """The function of the sni module that contains the HTTP/2 version test (today: handle itself)."""
-    h = facts.fn("server::conn::tls::sni::handle")
+    h = facts.unit(facts.fn("server::conn::tls::sni::handle"))
     cands = [h] + [g for g in facts.fns.values() if g.nkey.startswith("server::conn::tls::sni::") and g.key != h.key and "tests" not in g.nkey and "{closure" not in g.nkey]
     for g in cands:
         t, fe = h2_edges(g)
@@ -210,7 +210,7 @@ def C20_2(ctx, facts):
 
 
 def C20_4(ctx, facts):
-    f = facts.method("server::conn::tls::sni::ValidateSNIService", "Service", "call")
+    f = facts.unit(facts.method("server::conn::tls::sni::ValidateSNIService", "Service", "call"))
     ctx.touched(f)
     hc = f.calls("server::conn::tls::sni::handle")
     inner = [c for c in f.calls() if norm(c.decl or c.name).endswith("Service::call")]
@@ -235,7 +235,7 @@ def C20_4(ctx, facts):
 
 
 def C20_5(ctx, facts):
-    entries = [facts.fn("server::conn::tls::sni::handle").key, facts.method("server::conn::tls::sni::ValidateSNIService", "Service", "call").key]
+    entries = [facts.unit(facts.fn("server::conn::tls::sni::handle")).key, facts.unit(facts.method("server::conn::tls::sni::ValidateSNIService", "Service", "call")).key]
     st = panics.run(ctx, facts, entries, c17.TABLE, "sni", min_sites=0, scope=lambda fn: "tls::sni" in fn.nkey or fn.nkey.startswith("info::tls"))
     ctx.assume("E-PANIC sni: %s" % st)
 
